@@ -869,6 +869,14 @@ def reframe(d, rng, tag, body, style):
     if style.startswith('old'):
         w = int(style[3:])
         return unhx(d.call('frame_old', hn(tag), hn(w), hx(body)))
+    if style == 'partial2':
+        # partial chunks, then a LAST part of 192..8383 octets: its length field has two octets (the low one must be read at the
+        # right place of a buffer whose front was consumed by the earlier parts)
+        ks, left = [], len(body)
+        while left - 192 >= 1 and (left > 8383 or not ks):
+            k = max(k for k in range(0, 13) if (1 << k) <= left - 192)
+            ks.append(k); left -= 1 << k
+        return unhx(d.call('frame_partial', hn(tag), '.'.join(hn(k) for k in ks) or '-', hx(body)))
     if style == 'partial':
         ks = []
         left = len(body)
@@ -898,6 +906,9 @@ def run_foreign(ctx, pgpy, d, K, fast, blobs):
                     if j == len(pk) - 1: opts.append('old0')
                 if tag != 11 and tag != 8 and 'partial' in opts and rep % 2 == 0: opts.remove('partial')   # RFC: partial only for data packets
                 st = rng.choice(opts)
+                if tag == 11 and 194 <= len(body) < 60000 and rep == 0:
+                    st = 'partial2'
+                    ctx.dist['foreign:literal-partial-then-two-octet-last-part'] = ctx.dist.get('foreign:literal-partial-then-two-octet-last-part', 0) + 1
                 styles.append(st)
                 out += reframe(d, rng, tag, body, st)
             wrap = rng.choice([None, None, 1, 2, 3, 0])
@@ -954,7 +965,7 @@ def run_foreign(ctx, pgpy, d, K, fast, blobs):
             # a message of another producer that PGPy then SIGNS is a message PGPy builds: whatever framing its literal came with
             # (indeterminate length included: such a packet can only be the last one, and now a signature follows it), the export
             # must be a grammar sentence that imports to the same content, metadata and signatures, and the new signature verifies
-            if wrap is None and (rep == 0 or styles[-1] in ('old0', 'partial')):
+            if wrap is None and (rep == 0 or styles[-1] in ('old0', 'partial', 'partial2')):
                 sk_name = rng.choice(K.names)
                 ctx.case('foreign', ('then-signed', tuple(styles), hashlib.sha1(out).hexdigest(), sk_name), sample={'styles': styles, 'then': 'signed by ' + sk_name})
                 def sign_flow():
